@@ -228,6 +228,26 @@ def collect(EoN, sim, rng, tier, n_scripted, n_seeded):
             plain = run_scripted(EoN, sim, c, draws, False)
             full = run_scripted(EoN, sim, c, draws, True) if L.covers(c) else None
             res.append((c, {'draws': [str(d) for d in draws]}, plain, full))
+    if ok:
+        # every path (cascade cell x candidate x 2 delays, depth-bounded) of small specifications on every labelled
+        # graph of <= 3 nodes, directed and undirected: both return modes of the implementation on each script
+        small = []
+        for n in (1, 2, 3):
+            for directed in (False, True):
+                for edges in R.all_graphs(n, directed):
+                    gc = R.graph_from_edges(n, edges, R.make_labels(rng, n), directed=directed)
+                    c = L.make_case(rng, gc, rng.choice(['SIS', 'SIR', 'SIRS', 'SEIR', 'vaccination', 'random', 'odd']), tmax_steps=3)
+                    if in_domain(c): small.append(c)
+        if tier == 'quick': small = small[::2]
+        amode = 'A %d %d 2 %s' % (8, 12 if tier == 'quick' else 60, R.qtoks([F(1, 4), F(3, 2)]))
+        for c, o in zip(small, C.run_model([L.model_line(c, amode) for c in small], L.COMP)):
+            for pth in (o.split(' ## ') if o and ' ## ' in o else [o]):
+                m = R.parse_model_line(pth)
+                if m['status'] == 'DRIVERFAIL': continue
+                draws = m['draws']
+                plain = run_scripted(EoN, sim, c, draws, False)
+                full = run_scripted(EoN, sim, c, draws, True) if L.covers(c) else None
+                res.append((c, {'draws': [str(d) for d in draws], 'every_path': True}, plain, full))
     for c in gen_cases(rng, n_seeded):
         if c['tmax'] is None and c['kind'] not in L.TERMINATING: continue
         if not seedable(c): continue
@@ -320,7 +340,8 @@ def part(run, tier, pid, props, per):
     per['%s/extracted-checker' % ENTRY] = {'proved': True, 'props': 'Props/%s.v' % WHICH[pid], 'checkers': sorted({f[2] for f in FIELDS[pid]}),
                                            'cases': len(items), 'judged': judged, 'nontrivial_cases': nontrivial, 'rejected': rejected,
                                            'directed': sum(1 for c, _, _, _ in items if c['gc'].G.is_directed()),
-                                           'seeded': sum(1 for _, h, _, _ in items if 'seed' in h), 'stats': stats, 'samples': samples[:2]}
+                                           'seeded': sum(1 for _, h, _, _ in items if 'seed' in h), 'every_path_small_graphs': sum(1 for _, h, _, _ in items if h.get('every_path')),
+                                           'stats': stats, 'samples': samples[:2]}
     if pid in ('C04', 'C10'):
         complex_part(run, EoN, sim, tier, per, pid)
 
